@@ -167,8 +167,15 @@ def dedup_unanalysable(lst):
     for u in lst:
         k = (u["what"], u["where"])
         if k not in seen:
-            seen[k] = dict(u, count=0)
-        seen[k]["count"] += 1
+            seen[k] = dict(u, count=0, phases=[], options=[])
+            seen[k].pop("phase", None)
+            seen[k].pop("options_on", None)
+        e = seen[k]
+        e["count"] += 1
+        if u.get("phase") not in e["phases"]:
+            e["phases"].append(u.get("phase"))
+        if "options_on" in u and list(u["options_on"]) not in e["options"] and len(e["options"]) < 130:
+            e["options"].append(list(u["options_on"]))
     return list(seen.values())[:200]
 
 
